@@ -165,6 +165,7 @@ def rr_prune(ctx):
     """In reset_remove: an element / pending remove / register value is dropped exactly when its reset clock is empty."""
     facts = ctx.facts
     done_fields = set()
+    pending_shapes = []
     for inst, adt, params in RR_TYPES:
         body = ctx.method(adt, 'ResetRemove', 'reset_remove')
         r = roles(facts, adt) if adt != MVREG else {'entries': None, 'deferred': None, 'clock': None}
@@ -187,7 +188,9 @@ def rr_prune(ctx):
                 props = ['C18', 'C20'] + (['C04'] if inst == 'orswot' else []) + (['C05'] if inst == 'map' else [])
                 resets = [c2 for b2, c2 in cit.calls.items() if call_name(c2.term) == 'reset_remove' and is_call(c2.term, 'reset_remove', self_adt='VClock')]
                 if not resets:
-                    ctx.shape(name, cb, 'no VClock::reset_remove in the element filter', props=props)
+                    # maybe the reset happens in an earlier stage of the chain (`.map(reset).filter(non-empty)`): the loop form below
+                    # sees the whole pipeline; complain only if it does not cover this field either
+                    pending_shapes.append((inst, field, name, cb, props))
                     continue
                 tgt_id = versionless(resets[0].args[0].val)
 
@@ -283,6 +286,10 @@ def serde_impls(facts):
         elif t.endswith('_serde::Deserialize'):
             de[i['self_key']] = i
     return ser, de
+    for inst, field, name, cb, props in pending_shapes:
+        if (inst, field) not in done_fields:
+            ctx.shape(name, cb, 'no VClock::reset_remove in the element filter', props=props)
+            done_fields.add((inst, field))
 
 
 @rule('SER-BOTH', {
